@@ -1,2 +1,288 @@
-"""val rules."""
-RULES = {}
+"""VAL - validators: the stated refusal is reachable, unconditional under its test, and the test is not weaker than stated."""
+from __future__ import annotations
+
+import ast
+from typing import List, Optional
+
+from ..ctx import Ctx, dotted, names_in
+from ..loader import FuncInfo, iter_own_nodes, own_walk
+from ..report import RuleResult, Undecided, norm_src
+from .ref import _if_chains, pkg_funcs
+
+
+def _raising_ifs(f: FuncInfo) -> List[ast.If]:
+    return [n for n in iter_own_nodes(f.node) if isinstance(n, ast.If) and any(isinstance(b, ast.Raise) for b in n.body)]
+
+
+def val_maxc(ctx: Ctx) -> RuleResult:
+    r = RuleResult("VAL-MAXC")
+    f = ctx.method("BaseDAG", "__post_init__")
+    ifs = _raising_ifs(f)
+    ty = [i for i in ifs if norm_src(i.test) == "not isinstance(self.max_concurrency, int)"]
+    r.ob(len(ty) == 1, {"type test": norm_src(ty[0].test) if ty else None})
+    if not ty:
+        r.violate("BaseDAG.__post_init__: max_concurrency is not required to be an int", f.loc(), "", None)
+    rng = [i for i in ifs if "self.max_concurrency" in norm_src(i.test) and isinstance(i.test, ast.Compare)]
+    r.require(len(rng) <= 1, "several range tests on max_concurrency")
+    if not rng:
+        r.ob(False)
+        r.violate("BaseDAG.__post_init__: max_concurrency is not required to be >= 1", f.loc(),
+                  "with a bound of 0 the scheduler's 'in-flight == max' guard holds with nothing in flight: it waits forever", None)
+        return r
+    t = rng[0].test
+    s = norm_src(t)
+    ok = s in ("self.max_concurrency < 1", "self.max_concurrency <= 0", "1 > self.max_concurrency", "0 >= self.max_concurrency")
+    r.ob(ok, {"range test": s})
+    if not ok:
+        r.violate(f"BaseDAG.__post_init__: range test '{s}' is weaker than 'max_concurrency >= 1'", f.loc(rng[0]),
+                  "a bound of 0 (or below) is accepted", s)
+    # the type test precedes the comparison
+    if ty and rng:
+        r.ob(ty[0].lineno < rng[0].lineno, {"type test first": True})
+    return r
+
+
+def _validate_deps(ctx: Ctx) -> FuncInfo:
+    f = ctx.own_method("LazyExecNode", "_validate_dependencies")
+    if f is None:
+        raise Undecided("LazyExecNode._validate_dependencies not found")
+    return f
+
+
+def val_debugdep(ctx: Ctx) -> RuleResult:
+    r = RuleResult("VAL-DEBUGDEP")
+    f = _validate_deps(ctx)
+    loops = [n for n in iter_own_nodes(f.node) if isinstance(n, ast.For)]
+    r.require(len(loops) == 1, "validation loop not found")
+    lp = loops[0]
+    ok_src = norm_src(lp.iter) == "self.dependencies"
+    r.ob(ok_src, {"validates": norm_src(lp.iter)})
+    if not ok_src:
+        r.violate(f"{f.short}: validation iterates {norm_src(lp.iter)}, not every dependency", f.loc(lp),
+                  "dependencies carried by the other reference fields are not validated", norm_src(lp.iter))
+    dv = dotted(lp.target)
+    ifs = [n for n in lp.body if isinstance(n, ast.If) and any(isinstance(b, ast.Raise) for b in n.body)]
+    dbg = [i for i in ifs if ".debug" in norm_src(i.test)]
+    r.ob(len(dbg) == 1, {"refusal": norm_src(dbg[0].test) if dbg else None})
+    if not dbg:
+        r.violate(f"{f.short}: a non-debug node depending on a debug node is not refused", f.loc(lp),
+                  "production values could then depend on RUN_DEBUG_NODES", None)
+        return r
+    t = dbg[0].test
+    ok = isinstance(t, ast.BoolOp) and isinstance(t.op, ast.And) and len(t.values) == 2 and \
+        norm_src(t.values[0]) == "not self.debug" and norm_src(t.values[1]).endswith(f"[{dv}.id].debug")
+    r.ob(ok, {"test": norm_src(t)})
+    if not ok:
+        raise Undecided(f"{f.short}: debug-dependency test not recognised: {norm_src(t)}")
+    # the validation is only skipped outside a description
+    first = f.node.body[0] if not isinstance(f.node.body[0], ast.Expr) else f.node.body[1]
+    gate = isinstance(first, ast.If) and isinstance(first.body[0], ast.Return)
+    r.ob(gate, {"skipped only when": norm_src(first.test) if gate else None})
+    # __post_init__ calls it
+    pi = ctx.own_method("LazyExecNode", "__post_init__")
+    okc = pi is not None and any(q == f.qualname for _, q in ctx.calls_in(pi))
+    r.ob(okc, {"called from __post_init__": okc})
+    if not okc:
+        r.violate("LazyExecNode.__post_init__: dependency validation not invoked", pi.loc() if pi else f.loc(), "", None)
+    return r
+
+
+def val_setupdep(ctx: Ctx) -> RuleResult:
+    r = RuleResult("VAL-SETUPDEP")
+    f = _validate_deps(ctx)
+    loops = [n for n in iter_own_nodes(f.node) if isinstance(n, ast.For)]
+    r.require(len(loops) == 1, "validation loop not found")
+    lp = loops[0]
+    dv = dotted(lp.target)
+    ifs = [n for n in lp.body if isinstance(n, ast.If) and any(isinstance(b, ast.Raise) for b in n.body)]
+    st = [i for i in ifs if "self.setup" in norm_src(i.test)]
+    r.ob(len(st) == 1, {"refusal": norm_src(st[0].test) if st else None})
+    if not st:
+        r.violate(f"{f.short}: a setup node depending on a non-setup node is not refused", f.loc(lp),
+                  "its value, computed once, would freeze a per-call value", None)
+        return r
+    t = st[0].test
+    ok_form = isinstance(t, ast.BoolOp) and isinstance(t.op, ast.And) and norm_src(t.values[0]) == "self.setup" \
+        and isinstance(t.values[1], ast.UnaryOp) and isinstance(t.values[1].op, ast.Not) and isinstance(t.values[1].operand, ast.Name)
+    r.require(ok_form, f"setup-dependency test not recognised: {norm_src(t)}")
+    acc = t.values[1].operand.id
+    asg = [n for n in lp.body if isinstance(n, ast.Assign) and dotted(n.targets[0]) == acc]
+    r.require(len(asg) == 1, "accepted-case definition not found")
+    v = asg[0].value
+    parts = v.values if isinstance(v, ast.BoolOp) and isinstance(v.op, ast.Or) else [v]
+    srcs = [norm_src(p) for p in parts]
+    want_setup = any(s.endswith(f"[{dv}.id].setup") for s in srcs)
+    want_arg = any(s.startswith("isinstance(") and s.endswith(", ArgExecNode)") for s in srcs)
+    extra = [s for s in srcs if not (s.endswith(f"[{dv}.id].setup") or (s.startswith("isinstance(") and s.endswith(", ArgExecNode)")))]
+    ok = want_setup and want_arg and not extra
+    r.ob(ok, {"accepted dependencies": srcs})
+    if extra:
+        r.violate(f"{f.short}: accepted dependencies of a setup node widened by {extra}", f.loc(asg[0]),
+                  "a setup node may depend only on setup nodes and on constants/arguments", srcs)
+    elif not ok:
+        raise Undecided("accepted-case definition not recognised")
+    return r
+
+
+def val_setuparg(ctx: Ctx) -> RuleResult:
+    r = RuleResult("VAL-SETUPARG")
+    g = ctx.P.classes[ctx.cls_q("DiGraphEx")]
+    f = g.methods.get("from_exec_nodes")
+    r.require(f is not None, "from_exec_nodes not found")
+    ifs = [i for i in _raising_ifs(f) if ".setup" in norm_src(i.test)]
+    r.ob(len(ifs) == 1, {"refusal": norm_src(ifs[0].test) if ifs else None})
+    if not ifs:
+        r.violate("DiGraphEx.from_exec_nodes: a setup node reading a DAG argument is not refused", f.loc(),
+                  "the first call's argument would be frozen into the setup result", None)
+        return r
+    t = ifs[0].test
+    ok = isinstance(t, ast.BoolOp) and isinstance(t.op, ast.And) and len(t.values) == 2 and norm_src(t.values[0]).endswith(".setup") \
+        and isinstance(t.values[1], ast.Call) and dotted(t.values[1].func) == "any"
+    r.require(ok, f"setup-argument test not recognised: {norm_src(t)}")
+    gen = t.values[1].args[0]
+    src = norm_src(gen.generators[0].iter)
+    ok_src = src.endswith(".dependencies")
+    r.ob(ok_src, {"checks": src})
+    if not ok_src:
+        r.violate(f"DiGraphEx.from_exec_nodes: setup-argument check iterates {src}, not every dependency", f.loc(ifs[0]),
+                  "a DAG argument passed by keyword or as activation flag to a setup node is not refused", src)
+    # input ids come from the input nodes
+    ids = [n for n in iter_own_nodes(f.node) if isinstance(n, ast.Assign) and "input" in (dotted(n.targets[0]) or "")]
+    r.ob(len(ids) >= 1, {"input ids": norm_src(ids[0]) if ids else None})
+    return r
+
+
+def val_debugsetup(ctx: Ctx) -> RuleResult:
+    r = RuleResult("VAL-DEBUGSETUP")
+    f = ctx.own_method("ExecNode", "__post_init__")
+    r.require(f is not None, "ExecNode.__post_init__ not found")
+    ifs = [i for i in _raising_ifs(f) if norm_src(i.test) in ("self.debug and self.setup", "self.setup and self.debug")]
+    r.ob(len(ifs) == 1, {"debug and setup mutually exclusive": len(ifs) == 1})
+    if not ifs:
+        r.violate("ExecNode.__post_init__: a node may be both debug and setup", f.loc(),
+                  "the setup-only filter would then run a debug node with RUN_DEBUG_NODES off", None)
+    return r
+
+
+def val_executed(ctx: Ctx) -> RuleResult:
+    r = RuleResult("VAL-EXECUTED")
+    pre = ctx.method("BaseDAGExecution", "_pre_call")
+    post = ctx.method("BaseDAGExecution", "_post_call")
+    ifs = [i for i in _raising_ifs(pre) if norm_src(i.test) == "self.executed"]
+    r.ob(len(ifs) == 1, {"second run refused": len(ifs) == 1})
+    if not ifs:
+        r.violate("BaseDAGExecution._pre_call: an executed executor is not refused", pre.loc(), "", None)
+    elif pre.node.body.index(ifs[0]) > 1:
+        r.violate("BaseDAGExecution._pre_call: the refusal is not the first action", pre.loc(ifs[0]), "", None)
+    sets = [n for n in iter_own_nodes(post.node) if isinstance(n, ast.Assign) and norm_src(n.targets[0]) == "self.executed"
+            and isinstance(n.value, ast.Constant) and n.value.value is True]
+    r.ob(len(sets) == 1, {"flag set after the run": len(sets) == 1})
+    if not sets:
+        r.violate("BaseDAGExecution._post_call: the executed flag is never set", post.loc(), "the executor can be run twice", None)
+    for name in ("DAGExecution", "AsyncDAGExecution"):
+        c = ctx.own_method(name, "__call__")
+        r.require(c is not None, f"{name}.__call__ not found")
+        calls = [q for _, q in ctx.calls_in(c)]
+        ok = pre.qualname in calls and post.qualname in calls
+        r.ob(ok, {f"{name}.__call__ brackets the run": ok})
+        if not ok:
+            r.violate(f"{name}.__call__: does not go through _pre_call/_post_call", c.loc(), "", None)
+    return r
+
+
+def val_compose(ctx: Ctx) -> RuleResult:
+    r = RuleResult("VAL-COMPOSE")
+    f = ctx.method("BaseDAG", "compose")
+    nested = {g.name: g for g in ctx.P.funcs.values() if g.parent is f}
+    # the three ValueErrors
+    for nm, what in (("_raise_missing_input", "missing input"), ("_raise_input_successor_of_input", "input depends on input")):
+        g = nested.get(nm)
+        ok = g is not None and any(isinstance(n, ast.Raise) and "ValueError" in norm_src(n) for n in iter_own_nodes(g.node))
+        r.ob(ok, {what: "raises ValueError" if ok else None})
+        if not ok:
+            raise Undecided(f"compose: helper raising for '{what}' not found")
+    # missing input: raised when a needed predecessor is an un-defaulted DAG input that is not provided
+    amd = nested.get("_add_missing_deps")
+    r.require(amd is not None, "compose: dependency collector not found")
+    calls = [n for n in iter_own_nodes(amd.node) if isinstance(n, ast.Call) and dotted(n.func) == "_raise_missing_input"]
+    chains = _if_chains(amd.node)
+    ok = False
+    for c in calls:
+        st = next(s for s in iter_own_nodes(amd.node) if isinstance(s, ast.Expr) and s.value is c)
+        ch = [norm_src(t) for t, v in chains.get(id(st), ())]
+        ok = any("not in" in x for x in ch) and any(" in dag_inputs_ids" in x for x in ch)
+        r.ob(ok, {"missing input raised under": ch})
+    if not calls:
+        r.violate("BaseDAG.compose: a needed DAG input that is not provided is not refused", amd.loc(), "ValueError expected", None)
+    di = [n for n in iter_own_nodes(f.node) if isinstance(n, ast.Assign) and dotted(n.targets[0]) == "dag_inputs_ids"]
+    okdi = len(di) == 1 and "not in self.results" in norm_src(di[0].value)
+    r.ob(okdi, {"inputs without default": norm_src(di[0].value) if di else None})
+    # ambiguous alias
+    gs = ctx.method("BaseDAG", "_get_single_xn_by_alias")
+    ifs = [i for i in _raising_ifs(gs) if norm_src(i.test) in ("len(xns) > 1", "len(xns) != 1", "len(xns) >= 2")]
+    r.ob(len(ifs) == 1, {"ambiguous alias refused": len(ifs) == 1})
+    if not ifs:
+        r.violate("BaseDAG._get_single_xn_by_alias: an alias naming several nodes is not refused", gs.loc(), "ValueError expected", None)
+    return r
+
+
+def val_compose_anc(ctx: Ctx) -> RuleResult:
+    r = RuleResult("VAL-COMPOSE-ANC")
+    f = ctx.method("BaseDAG", "compose")
+    # the loop that raises 'input depends on input'
+    calls = [n for n in iter_own_nodes(f.node) if isinstance(n, ast.Call) and dotted(n.func) == "_raise_input_successor_of_input"]
+    r.require(len(calls) == 1, "compose: input-depends-on-input refusal not found")
+    chains = _if_chains(f.node)
+    st = next(s for s in iter_own_nodes(f.node) if isinstance(s, ast.Expr) and s.value is calls[0])
+    ch = chains.get(id(st), ())
+    r.require(len(ch) >= 1 and isinstance(ch[-1][0], ast.Compare) and isinstance(ch[-1][0].ops[0], ast.In),
+              "compose: refusal test not recognised")
+    setname = dotted(ch[-1][0].comparators[0])
+    asg = [n for n in iter_own_nodes(f.node) if isinstance(n, (ast.Assign, ast.AnnAssign))
+           and dotted(n.targets[0] if isinstance(n, ast.Assign) else n.target) == setname]
+    r.require(len(asg) == 1, f"definition of {setname} not found")
+    v = asg[0].value
+    src = norm_src(v)
+    closure = any(isinstance(n, ast.Call) and (dotted(n.func) or "").split(".")[-1] in ("ancestors_of_iter", "ancestors") for n in ast.walk(v))
+    direct = any(isinstance(n, ast.Call) and (dotted(n.func) or "").split(".")[-1] in ("predecessors", "in_edges", "pred") for n in ast.walk(v)) \
+        or any(isinstance(n, ast.Attribute) and n.attr in ("pred", "_pred") for n in ast.walk(v))
+    r.ob(closure and not direct, {"inputs compared against": src})
+    if direct and not closure:
+        r.violate("BaseDAG.compose: 'input depends on input' is tested against direct predecessors only", f.loc(asg[0]),
+                  "a transitive dependency between two inputs (a -> b -> c with inputs [a, c]) is accepted: the composed DAG "
+                  "returns inconsistent outputs", src)
+    elif not closure:
+        raise Undecided("compose: ancestor set definition not recognised: " + src)
+    return r
+
+
+def val_conf(ctx: Ctx) -> RuleResult:
+    r = RuleResult("VAL-CONF")
+    f = ctx.method("ExecNode", "_conf_to_values")
+    p = f.node.args.args[1].arg
+    n_ok = 0
+    for key in ("priority", "is_sequential"):
+        asg = [n for n in iter_own_nodes(f.node) if isinstance(n, ast.Assign) and isinstance(n.targets[0], ast.Subscript)
+               and isinstance(n.targets[0].slice, ast.Constant) and n.targets[0].slice.value == key]
+        r.require(len(asg) == 1, f"_conf_to_values: assignment of '{key}' not found")
+        v = asg[0].value
+        s = norm_src(v)
+        good = s in (f"{p}.get('{key}', self.{key})", f"{p}['{key}'] if '{key}' in {p} else self.{key}")
+        or_default = isinstance(v, ast.BoolOp) and isinstance(v.op, ast.Or)
+        r.ob(good, {key: s})
+        if good:
+            n_ok += 1
+        elif or_default:
+            r.violate(f"ExecNode._conf_to_values: configured '{key}' falls back to the old value when it is falsy", f.loc(asg[0]),
+                      f"re-configuring {key} to {'0' if key == 'priority' else 'False'} is silently ignored: the node and all its "
+                      f"ancestors keep stale compound priorities / flags", s)
+        else:
+            raise Undecided(f"_conf_to_values: form of '{key}' not recognised: {s}")
+    return r
+
+
+RULES = {
+    "VAL-MAXC": val_maxc, "VAL-DEBUGDEP": val_debugdep, "VAL-SETUPDEP": val_setupdep, "VAL-SETUPARG": val_setuparg,
+    "VAL-DEBUGSETUP": val_debugsetup, "VAL-EXECUTED": val_executed, "VAL-COMPOSE": val_compose,
+    "VAL-COMPOSE-ANC": val_compose_anc, "VAL-CONF": val_conf,
+}
